@@ -124,3 +124,78 @@ class AddFileIdentDesc(Base):
 
     def observe(self, c, a, out):
         return {'kind': out.kind, 'exc': out.exc, 'n': len(a.self.fi_descs), 'info_len': a.self.info_len}
+
+
+@contract
+class FidPlacementStep(Base):
+    """C10/fid-location (fragment: body of the loop over a directory's file identifier descriptors in PyCdlib._udf_assign_extents,
+    every variable symbolic).  Descriptors are laid out back to back in the directory's data and may straddle blocks; a
+    descriptor's tag location must be the block that holds its FIRST byte (ECMA-167 3/7.2.8).  With T the byte offset of the
+    descriptor in the directory data, represented by the loop state as (current_extent - first) * block size + offset:
+    the descriptor gets location first + T // block size, and the state afterwards represents T + length of the descriptor."""
+    target = 'pycdlib.pycdlib.PyCdlib._udf_assign_extents'
+    label = 'pycdlib.PyCdlib._udf_assign_extents<UDF descriptor placement loop body>'
+    namelen = 5
+
+    def setup(self, c):
+        a = c.a
+        a.lbs = 2048
+        a.first = c.int('first_extent', 257, 1 << 30)
+        a.part = c.int('part_start', 257, 1 << 30)
+        c.assume(a.part <= a.first)
+        a.k = c.int('blocks_so_far', 0, 1 << 20)
+        a.off = c.int('offset', 0, 2048 + 296)       # the previous descriptor (at most 296 bytes) started inside the block
+        a.cur = a.first + a.k
+        tag = c.obj('pycdlib.udf.UDFTag', _initialized=True, tag_location=c.int('stale_tag_location', 0))
+        a.d = c.obj(FID, _initialized=True, isparent=c.bool('isparent'), isdir=False, fi=c.bytes('fi', self.namelen), file_entry=None, desc_tag=tag,
+                    new_extent_loc=c.int('stale_extent', -1))
+        fe = c.obj(FE, _initialized=True, fi_descs=[a.d])
+        me = c.obj('pycdlib.pycdlib.PyCdlib', _initialized=True, logical_block_size=a.lbs)
+        import collections
+        env = dict(self=me, d=a.d, offset=a.off, current_extent=a.cur, part_start=a.part, udf_file_entry=fe, udf_file_entries=collections.deque(), udf_file_assign_list=[])
+        a.T = a.k * a.lbs + a.off
+        a.q, a.r = c.divmod(a.T, a.lbs)
+        from pyvc.contract import Fragment
+        return Call([], fn=Fragment(self.target, {'for_iter': 'udf_file_entry.fi_descs'}, env))
+
+    def post(self, c, a, out):
+        L = fid_length(self.namelen)
+        res = out.result
+        block = a.first + a.q
+        return {'descriptor-located-in-the-block-of-its-first-byte': And(a.d.new_extent_loc == block, a.d.desc_tag.tag_location == block - a.part),
+                'state-represents-the-next-offset': (res['current_extent'] - a.first) * a.lbs + res['offset'] == a.T + L,
+                'offset-stays-within-one-block-plus-a-descriptor': And(res['offset'] >= 0, res['offset'] < a.lbs + 296)}
+
+    def observe(self, c, a, out):
+        return {'kind': out.kind, 'loc': a.d.new_extent_loc, 'tag': a.d.desc_tag.tag_location,
+                'state': [out.result.get('current_extent'), out.result.get('offset')] if out.kind == 'return' else None}
+
+
+@contract
+class FileEntryNew(Base):
+    """C10/alloc: a new UDF file entry for a file of any length 0 .. 2^32-1 carries allocation descriptors that cover exactly the
+    file: every descriptor length is in (0, 0x3ffff800] (a zero length would terminate the sequence for a reader, ECMA-167
+    4/12.1), all but the last are full, their sum is the information length, and the recorded block count is ceil(length / block)"""
+    target = FE + '.new'
+
+    def setup(self, c):
+        from contracts import scenario as S
+        S.pin_environment(c)
+        a = c.a
+        a.n = c.int('length', 0, (1 << 32) - 1)
+        a.self = c.new(FE)
+        a.q, a.r = c.divmod(a.n, 2048)
+        return Call([a.n, 'file', None, 2048], self_obj=a.self)
+
+    def post(self, c, a, out):
+        ads = a.self.alloc_descs
+        lens = [d.extent_length for d in ads]
+        MAXLEN = 0x3ffff800
+        return {'every-descriptor-non-empty-and-at-most-the-maximum': And(*[And(x > 0, x <= MAXLEN) for x in lens]) if lens else True,
+                'all-but-the-last-are-full': And(*[x == MAXLEN for x in lens[:-1]]) if len(lens) > 1 else True,
+                'descriptors-cover-exactly-the-file': sx.Sum(lens) == a.n,
+                'information-length-and-blocks': And(a.self.info_len == a.n, a.self.log_block_recorded == If(a.r == 0, a.q, a.q + 1)),
+                'one-link': a.self.file_link_count == 1}
+
+    def observe(self, c, a, out):
+        return {'kind': out.kind, 'lens': [d.extent_length for d in a.self.alloc_descs] if out.kind == 'return' else None}
